@@ -8,7 +8,7 @@
  "includes": ["resize"],
  "loop_contracts": true,
  "defines": ["NUM_LIMIT=16777216"],
- "unwind": 4,
+ "unwind": 10,
  "unwind_reason": "the only loop of ext2fs_extent_translate (the interpolating binary search) is cut by the in-place loop contract VERIF_INV_EXTENT_TRANSLATE_SEARCH (invariant + decreases clause, i.e. total correctness of the search); the bound only serves instrumentation loops",
  "functions": ["resize/extent.c:ext2fs_extent_translate"],
  "assumes": ["the table holds at most 2^24 runs (NUM_LIMIT); without this bound the obligation 'mid stays in [low, high]' FAILS: see unit rsz_extent_translate_big and findings/C08_extent_translate_float_oob",
@@ -28,7 +28,7 @@
  "includes": ["resize"],
  "loop_contracts": true,
  "defines": ["NUM_LIMIT=67108864"],
- "unwind": 4,
+ "unwind": 10,
  "unwind_reason": "as rsz_extent_translate",
  "functions": ["resize/extent.c:ext2fs_extent_translate"],
  "assumes": ["as rsz_extent_translate but with up to 2^26 runs: EXPECTED TO FAIL on 'mid stays in [low, high]' -- (float)(high-low) rounds up once high-low needs more than 24 bits, so range == 1 puts mid behind high (and behind the end of the table): findings/C08_extent_translate_float_oob"],
